@@ -85,7 +85,40 @@ func (e *Engine) allocTypeID(t types.Type) *Term {
 	if at, ok := t.Underlying().(*types.Array); ok {
 		return IntLit(int64(e.typeID(types.NewSlice(at.Elem()))))
 	}
+	if g := genericRepoStruct(t); g != nil {
+		return IntLit(int64(e.typeID(g))) // every instantiation of a generic struct shares one allocation type
+	}
 	return IntLit(int64(e.typeID(t)))
+}
+
+// genericRepoStruct: t is an instantiation of a generic struct type declared in the repository;
+// the result is the generic type itself.
+func genericRepoStruct(t types.Type) *types.Named {
+	n, ok := t.(*types.Named)
+	if !ok || n.Obj().Pkg() == nil || !strings.HasPrefix(n.Obj().Pkg().Path(), modulePath) {
+		return nil
+	}
+	if n.TypeArgs() == nil || n.TypeArgs().Len() == 0 {
+		return nil
+	}
+	if _, isStruct := n.Underlying().(*types.Struct); !isStruct {
+		return nil
+	}
+	return n.Origin()
+}
+
+// genericEmbedded: some instantiation of the generic struct occurs by value inside another type.
+func (tu *typeUniverse) genericEmbedded(g *types.Named) bool {
+	prefix := types.TypeString(g, nil)
+	if i := strings.Index(prefix, "["); i >= 0 {
+		prefix = prefix[:i]
+	}
+	for k := range tu.embedded {
+		if k == prefix || strings.HasPrefix(k, prefix+"[") {
+			return true
+		}
+	}
+	return false
 }
 
 func isRepoNamed(t types.Type) (*types.Named, bool) {
@@ -113,6 +146,12 @@ func (e *Engine) blockTypeFact(t types.Type, blk, off *Term) *Term {
 			if _, isStruct := n.Underlying().(*types.Struct); !isStruct {
 				ok = false
 			}
+		}
+		if g := genericRepoStruct(u.Elem()); !ok && g != nil && !tu.genericEmbedded(g) {
+			// pointer to an instantiation of a generic repo struct that is never embedded by value
+			own := And(Eq(e.btype(blk), e.allocTypeID(u.Elem())), Eq(off, IntLit(0)))
+			arr := Eq(e.btype(blk), IntLit(int64(e.typeID(types.NewSlice(u.Elem())))))
+			return Or(Eq(blk, IntLit(0)), own, arr)
 		}
 		if !ok {
 			// pointers to other types (e.g. *uint64): exclude the known allocation types that cannot hold one
@@ -234,6 +273,8 @@ func (e *Engine) registerAllocTypes(fn *ssa.Function) {
 			if n, ok := t.(*types.Named); ok {
 				if n.TypeArgs() == nil || n.TypeArgs().Len() == 0 {
 					e.typeID(n)
+				} else if g := genericRepoStruct(n); g != nil {
+					e.typeID(g)
 				}
 			}
 			for i := 0; i < u.NumFields(); i++ {
